@@ -28,7 +28,7 @@ Definition ex_cold : state := fst (fst (run_prog ex_s0 [OInit 0; OLoad 0 ex_cfg]
 Definition every_cop : list cop :=
   [CTraverse; CTypePrint; CDistGet; CDistRelease; CMaMeta; CMaGet QValue 2; CMaGet QBestTarget 3;
    CMaGet QBestInitiator 4; CMaGet QTargets 8; CMaGet QInitiators 5; CMaGet QValue 0; CLocalNodes;
-   CCpukinds; CSets; CBitmap; CExportXml; CExportSynth false].
+   CCpukinds; CSets; CBitmap; CExportXml; CExportSynth false; CDefaultNodeset; CHelpers].
 Definition ex_reader : list op := map (OCons 0) every_cop.
 
 Example ex_state_meets_hypotheses :
@@ -100,7 +100,7 @@ Theorem valid_reader_writes_nothing_nonexport : forall s t c,
   fst (fst (run_op s (OCons t c))) = s /\ writes (snd (run_op s (OCons t c))) = [].
 Proof.
   intros s t c V U. apply EventsProofs.run_op_reader; [exact V|]. simpl.
-  destruct c as [| | | | |q a| | | | | |[|]]; try discriminate; reflexivity.
+  destruct c as [| | | | |q a| | | | | |[|]| |]; try discriminate; reflexivity.
 Qed.
 Print Assumptions valid_reader_writes_nothing_nonexport.
 
@@ -144,7 +144,7 @@ Print Assumptions interleaving_race_free.
 
 Example interleaving_race_free_nonvacuous :
   (forall p, In p [ex_reader; rev ex_reader; ex_reader] -> readers_ok (s_glob ex_state) p = true) /\
-  length (events_of ex_state ex_reader) = 75 /\
+  length (events_of ex_state ex_reader) = 77 /\
   race_b (alone 0 (events_of ex_state ex_reader) ++ alone 1 (events_of ex_state (rev ex_reader))) = false.
 Proof.
   split; [|vm_compute; split; reflexivity].
@@ -179,7 +179,7 @@ Proof.
   assert (R : forall p, In p progs -> readers_ok (s_glob s) p = true).
   { intros p Hp. specialize (C p Hp). unfold all_cons in C. unfold readers_ok.
     rewrite forallb_forall in *. intros o Ho. specialize (C o Ho). destruct o as [| | | |t c]; try discriminate.
-    simpl. destruct c as [| | | | |q a| | | | | |[|]]; try reflexivity; assumption. }
+    simpl. destruct c as [| | | | |q a| | | | | |[|]| |]; try reflexivity; assumption. }
   exact (proj1 (proj1 (EventsProofs.interleaving_race_free s progs V R) il Hil)).
 Qed.
 Print Assumptions env_cache_first_use_races_partial.
